@@ -214,11 +214,11 @@ func (r *udpRoles) acceptingFact(f fact, want bool) bool {
 		if !ok || ex.Index != 0 {
 			return false
 		}
-		ta, ok := ex.Tuple.(*ssa.TypeAssert)
+		ta, ok := origin(ex.Tuple).(*ssa.TypeAssert)
 		if !ok {
 			return false
 		}
-		call, ok := ta.X.(*ssa.Call)
+		call, ok := origin(ta.X).(*ssa.Call)
 		if !ok || callName(call) != "(*sync/atomic.Value).Load" {
 			return false
 		}
@@ -432,8 +432,8 @@ func runC12(c *Ctx) {
 				}
 				// the flag must be loaded under the lock
 				if ex, ok := ft.Cond.(*ssa.Extract); ok {
-					if ta, ok := ex.Tuple.(*ssa.TypeAssert); ok {
-						if call, ok := ta.X.(*ssa.Call); ok && !r.holdsConnLock(la, call) {
+					if ta, ok := origin(ex.Tuple).(*ssa.TypeAssert); ok {
+						if call, ok := origin(ta.X).(*ssa.Call); ok && !r.holdsConnLock(la, call) {
 							oq.Fail(call.Pos(), "the accepting flag is read outside connLock")
 						}
 					}
@@ -826,12 +826,12 @@ func runC11(c *Ctx) {
 			// single read: addr is extract #1 of ReadFrom(x), buf is x[:n] with n extract #0 of the same call
 			if ex, ok := addr.(*ssa.Extract); ok {
 				sl, ok2 := buf.(*ssa.Slice)
-				rf, _ := ex.Tuple.(*ssa.Call)
+				rf, _ := origin(ex.Tuple).(*ssa.Call)
 				if !ok2 || rf == nil || !rf.Call.IsInvoke() || rf.Call.Method.Name() != "ReadFrom" {
 					o.Fail(in.Pos(), "address/payload pairing of the single-read path not recognised")
 					return
 				}
-				hi, _ := sl.High.(*ssa.Extract)
+				hi, _ := origin(sl.High).(*ssa.Extract)
 				if hi == nil || hi.Tuple != ex.Tuple || sl.X != rf.Call.Args[0] {
 					o.Fail(in.Pos(), "payload and address do not come from the same ReadFrom call / buffer")
 				}
@@ -890,7 +890,7 @@ func runC11(c *Ctx) {
 				if !ok || ex.Index != 1 {
 					return false
 				}
-				lk, ok := ex.Tuple.(*ssa.Lookup)
+				lk, ok := origin(ex.Tuple).(*ssa.Lookup)
 				return ok && isFieldLoad(lk.X, r.LT, r.conns)
 			}, false)
 		}) {
@@ -961,7 +961,7 @@ func runC11(c *Ctx) {
 			}
 			isLook := false
 			if ex, ok := e.(*ssa.Extract); ok {
-				if lk, ok := ex.Tuple.(*ssa.Lookup); ok && isFieldLoad(lk.X, r.LT, r.conns) {
+				if lk, ok := origin(ex.Tuple).(*ssa.Lookup); ok && isFieldLoad(lk.X, r.LT, r.conns) {
 					isLook = true
 				}
 			}
